@@ -18,6 +18,8 @@ type LHS struct {
 	Fn  string `json:"fn,omitempty"` // "" scalar symbol | anyOf | allOf | count
 	Sym string `json:"sym"`
 	Sub *Expr  `json:"sub,omitempty"` // count(from Sym where Sub)
+	// SubSort: optional "sort by" inside the sub-query (no effect on membership; it references symbols)
+	SubSort []SortKey `json:"subSort,omitempty"`
 }
 
 type Expr struct {
@@ -83,13 +85,28 @@ func (e *Expr) constText(i int) string {
 	return RenderConst(e.C[i])
 }
 
+func (l *LHS) subSortText() string {
+	if len(l.SubSort) == 0 {
+		return ""
+	}
+	var ks []string
+	for _, k := range l.SubSort {
+		s := k.Sym
+		if k.Dir != "" {
+			s += " " + k.Dir
+		}
+		ks = append(ks, s)
+	}
+	return " sort by " + strings.Join(ks, ", ")
+}
+
 func (l *LHS) Render() string {
 	switch l.Fn {
 	case "":
 		return l.Sym
 	case "count":
 		if l.Sub != nil {
-			return "count(from " + l.Sym + " where " + l.Sub.Render() + ")"
+			return "count(from " + l.Sym + " where " + l.Sub.Render() + l.subSortText() + ")"
 		}
 		return "count(" + l.Sym + ")"
 	default:
@@ -146,7 +163,7 @@ func (e *Expr) Render() string {
 		return e.L.Sym + " = null"
 	case "isempty":
 		if e.L.Sub != nil {
-			return "isEmpty(from " + e.L.Sym + " where " + e.L.Sub.Render() + ")"
+			return "isEmpty(from " + e.L.Sym + " where " + e.L.Sub.Render() + e.L.subSortText() + ")"
 		}
 		return "isEmpty(" + e.L.Sym + ")"
 	}
